@@ -59,8 +59,15 @@ def get_dimensionality(
         list: A list of clusters. Each entry in the list contains the indices
             of atoms in a cluster.
     """
+    pbc = system.get_pbc()
+
+    # The neighbour search below uses a finite cutoff and assumes that the
+    # atoms are inside the cell: wrap a copy so that atoms given outside of
+    # the cell (shifted by lattice vectors) keep their bonds.
+    if pbc.any():
+        system = system.copy()
+        system.wrap()
     system_1x = system
-    pbc = system_1x.get_pbc()
     num_1x = system_1x.get_atomic_numbers()
     cell_1x = system_1x.get_cell()
 
